@@ -214,7 +214,9 @@ Theorem C15_known_class_decidable :
              (LongOnes bs -> LongOnesResult bs (long_ones_result bs)).
 Proof. intros bs. split; [exact (long_ones_b_spec bs)|exact (long_ones_result_spec bs)]. Qed.
 
-(* decoding never panics - slice index, fuel, and the u32 overflow sites of read_bits (Panic 13/14:
+(* decoding never panics - slice index, fuel, every shift whose amount could reach the width of the shifted
+   type (check_padding `0xFF >> (symbol_end % 8)` Panic 40, check_eof `2u16 << (count - 1)` 41/42, read_bits 43/44),
+   the BitWindow field widths (15/16) and the u32 overflow sites of read_bits (Panic 13/14:
    `src.len() as u32 * 8`, `(byte_offset * 8) + bit_offset + len`) - on any input that satisfies
    fits_u32 (8 * len + 8 < 2^32), which is exactly what the guard of prefix_string::decode
    establishes (C15_string_decode_no_panic has no size premise) *)
